@@ -30,14 +30,17 @@ Record entry := mkEntry {
   e_ts : Z;               (* robust.Message.Timestamp(), ns *)
   e_kind : kind;
   e_exp : option N;       (* Some d: a Config message that parses, SessionExpiration = d ns *)
+  e_rev : N;              (* robust.Message.Revision (only read for Config messages) *)
   e_payload : string      (* opaque to the bookkeeping *)
 }.
 
 Definition stored_kind (e : entry) : bool :=
   match e_kind e with KInternal => false | _ => true end.
-(* the Config case of applyRobustMessage is the only place that assigns fsm.sessionExpirationDur *)
-Definition sets_exp (e : entry) : bool :=
-  match e_kind e, e_exp e with KCmd, Some _ => true | _, _ => false end.
+(* the Config case of applyRobustMessage is the only place that assigns fsm.sessionExpirationDur: a Config message
+   that parses AND follows the revision in force ([r] = Config.Revision of the server it is applied to:
+   `if msg.Revision != i.Config.Revision+1 { skip }`); every other Config message changes nothing *)
+Definition sets_exp (r : N) (e : entry) : bool :=
+  match e_kind e, e_exp e with KCmd, Some _ => e_rev e =? r + 1 | _, _ => false end.
 
 Definition kind_eqb (a b : kind) : bool :=
   match a, b with KCmd, KCmd | KMoD, KMoD | KInternal, KInternal => true | _, _ => false end.
@@ -110,6 +113,7 @@ Section FSM.
   Variable marshal : S -> N -> B.             (* IRCServer.Marshal(lastIncludedIndex) *)
   Variable unmarshal : B -> option (S * N).   (* Unmarshal onto a fresh server; returns lastIncludedIndex *)
   Variable exp_of : S -> N.                   (* Config.SessionExpiration of the server *)
+  Variable rev_of : S -> N.                   (* Config.Revision of the server: the revision in force *)
 
   Record fsm := mkFsm {
     ircstore : store entry;        (* FSM.ircstore: irclog LevelDB *)
@@ -129,7 +133,7 @@ Section FSM.
       mkFsm (put (e_idx e) e (ircstore f))
             (match o with [] => outstore f | _ => put (e_idx e) o (outstore f) end)
             (lss f)
-            (if sets_exp e then exp_of s' else expdur f)
+            (if sets_exp (rev_of (server f)) e then exp_of s' else expdur f)
             s'
     else f.
 
@@ -148,7 +152,7 @@ Section FSM.
           snap_loop v hz r
             (mkLoop s' (del i (l_irc a)) (del i (l_out a))
                     (if fix_d15 v then l_exp a
-                     else if sets_exp e then exp_of s' else l_exp a))
+                     else if sets_exp (rev_of (l_tmp a)) e then exp_of s' else l_exp a))
     end.
 
   (* the base state: lastSnapshotState[first-1] (pinned) / the entry with the greatest key < first
